@@ -17,6 +17,7 @@ def run(rep):
     pr.rule_docstring_states(rep)
     mr.rule_docstring_fsm(rep)
     mr.rule_docstring_own(rep)
+    mr.rule_match_result(rep, "C13.result")
     mr.rule_other_text(rep)
     lr.rule_line_basics(rep, "C13.line")
     br.rule_docstring_ast(rep)
